@@ -255,7 +255,7 @@ pub fn setup(toks: &[&str]) -> Result<Setup, String> {
     let mut i = 4;
     let mut roots = Vec::new();
     for li in 0..nl {
-        let root = scratch.base.join(format!("L{}", li));
+        let root = scratch.base.join(layer_dir_name(li));
         std::fs::create_dir(&root).map_err(|e| format!("SETUP-ERROR {}", e))?;
         let k: usize = toks[i].parse().unwrap();
         i += 1;
@@ -370,6 +370,23 @@ pub fn run(toks: &[&str]) -> String {
                     Err(_) => "BAD-ARCHIVE".to_string(),
                 }))
                 .unwrap_or_else(|_| "panic".to_string())
+            }
+            // test set-up, not an API call: H <layer> <Lsrc> <Ldst> creates a HARD LINK dst -> src inside layer <layer> (seeded change C13-10)
+            "H" => {
+                used = 4;
+                let li: usize = toks[i + 1].parse().unwrap();
+                let dst = str_of_l(toks[i + 3]);
+                if !safe_rel(&dst) || dst.is_empty() || path.is_empty() {
+                    return "REFUSED-PATH".to_string();
+                }
+                let to = st.roots[li].join(&dst);
+                if let Some(par) = to.parent() {
+                    let _ = std::fs::create_dir_all(par);
+                }
+                match std::fs::hard_link(st.roots[li].join(&path), &to) {
+                    Ok(()) => "link:ok".to_string(),
+                    Err(e) => format!("link:err:{:?}", e.kind()),
+                }
             }
             x => panic!("fs: bad op {}", x),
         };
